@@ -76,7 +76,7 @@ def run(ctx):
             profiles["%s/w%d" % (drv, w)] = counts
             for sysc, errs in ERRNOS.items():
                 n = counts.get(sysc, 0)
-                cap = n if not quick else min(n, 8)
+                cap = n if not quick else min(n, 16 if sysc == "ioctl" else 8)      # ioctl: clone attempts of every file come before the extent-map pages
                 for when in range(1, cap + 1):
                     for err in (errs if (not quick or sysc in ("openat", "getdents64", "ioctl", "lseek")) else [errs[when % len(errs)]]):
                         jobs.append((drv, w, sysc, err, when, None))
